@@ -2136,8 +2136,17 @@ class Scheduler:
             ]
             subtree_tasks = job.calc_subtree_tasks()
 
+            if job.was_cached and job.call_hash:
+                # The error was served by CSE: the job has no child jobs of its own, its CallNode
+                # is already recorded. Keep that CallNode and take its subtree tasks from the
+                # backend (as _resolve_job_main_thread does), so that the parent sees them.
+                job.subtree_tasks = {job.task} | self._get_subtree_tasks(job)
+                if job.recording_provenance():
+                    self._record_job_tags(job)
+                    self.backend.record_job_end(job, status="FAILED")
+
             # Compute final call_hash and record CallNode.
-            if job.recording_provenance():
+            elif job.recording_provenance():
                 error_value = ErrorValue(error, error_traceback or Traceback.from_error(error))
                 try:
                     error_hash = self.backend.record_value(error_value)
